@@ -281,8 +281,8 @@ mutual
     | .setReg _ _ => []
     | .units _ => []
     | .actAll _ => []
-    | .setDefault => []
-    | .action _ ops => defsOps ops
+    | .setDefault _ => []
+    | .action _ _ ops => defsOps ops
     | .get _ => []
     | .wait => []
     | .timeAt _ => []
@@ -323,8 +323,8 @@ mutual
     | .setReg _ _, il, im, h, _ => by simpa [wsStmt] using h
     | .units _, il, im, h, _ => by simp [wsStmt]
     | .actAll _, il, im, h, _ => by simp [wsStmt]
-    | .setDefault, il, im, h, _ => by simp [wsStmt]
-    | .action k ops, il, im, h, hd => by
+    | .setDefault _, il, im, h, _ => by simp [wsStmt]
+    | .action k w ops, il, im, h, hd => by
       simp only [wsStmt] at h ⊢
       simp only [defsS] at hd
       exact mono_ops ops im h hd
@@ -483,18 +483,22 @@ mutual
     | .setReg r v, il, im, h => split_leaf_aux (markerFree_stmt (mono_stmt _ il im h (by rw [defsS]))) (by rw [defsS])
     | .units m, il, im, h => split_leaf_aux (markerFree_stmt (mono_stmt _ il im h (by rw [defsS]))) (by rw [defsS])
     | .actAll k, il, im, h => split_leaf_aux (markerFree_stmt (mono_stmt _ il im h (by rw [defsS]))) (by rw [defsS])
-    | .setDefault, il, im, h => split_leaf_aux (markerFree_stmt (mono_stmt _ il im h (by rw [defsS]))) (by rw [defsS])
-    | .action k ops, il, im, h => by
+    | .setDefault _, il, im, h => split_leaf_aux (markerFree_stmt (mono_stmt _ il im h (by rw [defsS]))) (by rw [defsS])
+    | .action k w ops, il, im, h => by
       have ho : wsOperands K false im ops = true := by simpa [wsStmt] using h
       have ih := split_operands k ops im ho
       rw [defsS, ← ih]
+      have hw : MarkerFree (ins (if w = true then [Instr.wait] else [])) := by
+        cases w
+        · exact markerFree_ins (K := K) CI.nil
+        · exact markerFree_ins (K := K) (ci_one _ rfl)
       cases k
       · rw [genStmt]
-        exact rsegC_mf_left ((markerFree_ins (K := K) CI.nil).append (markerFree_ins (K := K) (ci_one _ rfl))) _
+        exact rsegC_mf_left ((markerFree_ins (K := K) CI.nil).append hw) _
       · rw [genStmt]
-        exact rsegC_mf_left ((markerFree_ins (K := K) (ci_one _ rfl)).append (markerFree_ins (K := K) (ci_one _ rfl))) _
+        exact rsegC_mf_left ((markerFree_ins (K := K) (ci_one _ rfl)).append hw) _
       · rw [genStmt]
-        exact rsegC_mf_left ((markerFree_ins (K := K) (ci_one _ rfl)).append (markerFree_ins (K := K) (ci_one _ rfl))) _
+        exact rsegC_mf_left ((markerFree_ins (K := K) (ci_one _ rfl)).append hw) _
     | .get name, il, im, h => split_leaf_aux (markerFree_stmt (mono_stmt _ il im h (by rw [defsS]))) (by rw [defsS])
     | .wait, il, im, h => split_leaf_aux (markerFree_stmt (mono_stmt _ il im h (by rw [defsS]))) (by rw [defsS])
     | .timeAt ps, il, im, h => split_leaf_aux (markerFree_stmt (mono_stmt _ il im h (by rw [defsS]))) (by rw [defsS])
